@@ -24,4 +24,7 @@ Denom(t, i, j, r) == IF r = 1 THEN RAdd(t[i], t[j]) ELSE RMul(RAdd(t[i], t[j]), 
 GradX(Q, t, G, r) == LET Gp == RMatMul(RMatMul(RTr(Q), G), Q)
                          Xp == [i \in 1..Len(t) |-> [j \in 1..Len(t) |-> RDiv(Gp[i][j], Denom(t, i, j, r))]]
                      IN Conj(Q, Xp)
+\* LogScalar: at a scalar matrix A = c I (c > 0) the matrix logarithm has the Frechet derivative H |-> H / c, so the gradient of
+\* <G, logm(A)> with respect to A is G / c - the one family on which the backward of the (transcendental) logarithm is rational.
+LogScalarGrad(G, c) == [i \in 1..Len(G) |-> [j \in 1..Len(G) |-> RDiv(G[i][j], c)]]
 =============================================================================
